@@ -293,12 +293,19 @@ struct Twin {
     /// per node: own tree has a conflict / merged parents have a conflict
     own_conflict: Vec<bool>,
     parent_conflict: Vec<bool>,
+    /// per node: paths that do NOT differ (same unresolved conflict in the merged parents and
+    /// in the commit), where the node is a merge commit and the tree of one of its parents is
+    /// itself conflicted (so the flattened merge of the parents has more terms than the
+    /// commit's simplified tree). Used only to give a narrow signature to one finding.
+    inherited_conflict_paths: Vec<Vec<String>>,
 }
 
 /// True if the raw value at `path` is an unresolved conflict with a directory term.
 fn is_dir_conflict(tree: &MergedTree, path: &RepoPath) -> bool {
     let v = tree.path_value(path).block_on().unwrap();
-    !v.is_resolved() && v.iter().any(|t| matches!(t, Some(TreeValue::Tree(_))))
+    !v.is_resolved()
+        && v.iter().any(|t| matches!(t, Some(TreeValue::Tree(_))))
+        && v.iter().any(|t| matches!(t, Some(x) if !matches!(x, TreeValue::Tree(_))))
 }
 
 /// File-level value of `path`: tree terms count as "no file here".
@@ -329,7 +336,7 @@ fn eval_files(repo: &dyn Repo, k: usize, id_to_node: &BTreeMap<CommitId, usize>)
 }
 
 fn build_twin(nodes: &[Node]) -> Twin {
-    let test_repo = TestRepo::init();
+    let test_repo = TestRepo::init_with_backend(testutils::TestRepoBackend::Simple);
     let repo = test_repo.repo.clone();
     let n = nodes.len();
     let mut ids: Vec<Option<CommitId>> = vec![None; n + 1];
@@ -349,6 +356,7 @@ fn build_twin(nodes: &[Node]) -> Twin {
     let mut free_paths = vec![vec![]; n + 1];
     let mut own_conflict = vec![false; n + 1];
     let mut parent_conflict = vec![false; n + 1];
+    let mut inherited_conflict_paths = vec![vec![]; n + 1];
     for node in 1..=n {
         let c = commits[node].as_ref().unwrap();
         let parents: Vec<Commit> = c.parents().block_on().unwrap();
@@ -384,6 +392,11 @@ fn build_twin(nodes: &[Node]) -> Twin {
                 free_paths[node].push(p.to_string());
             } else if file_level_value(&ptree, &path) != file_level_value(&ctree, &path) {
                 ref_paths[node].push(p.to_string());
+            } else if parents.len() >= 2
+                && !file_level_value(&ctree, &path).is_resolved()
+                && parents.iter().any(|pc| pc.tree().has_conflict())
+            {
+                inherited_conflict_paths[node].push(p.to_string());
             }
         }
     }
@@ -395,7 +408,7 @@ fn build_twin(nodes: &[Node]) -> Twin {
             .unwrap_or_else(|e| machinery_failure(&format!("files() on the twin repository failed: {e}")));
         noindex_files.push(got);
     }
-    Twin { ids, ref_paths, free_paths, noindex_files, own_conflict, parent_conflict }
+    Twin { ids, ref_paths, free_paths, noindex_files, own_conflict, parent_conflict, inherited_conflict_paths }
 }
 
 // ---------------------------------------------------------------------------------------
@@ -442,6 +455,9 @@ struct Outcome {
     range_inconsistencies: u64,
     joins: u64,
     state_keys: Vec<u64>,
+    /// failures with a narrow, known-shape signature: recorded once per signature and case,
+    /// the remaining checks of the case still run
+    soft: Vec<Fail>,
 }
 
 impl Outcome {
@@ -523,6 +539,26 @@ impl<'a> Runner<'a> {
                     if &strict != want {
                         let spec = if n == 0 { "root".to_string() } else { format!("{:?}", self.nodes[n - 1]) };
                         let shape = if n > 0 && self.nodes[n - 1].parents.len() > 1 { "merge" } else { "non-merge" };
+                        let extra: Vec<&String> = strict.iter().filter(|p| !want.contains(p)).collect();
+                        let missing = want.iter().any(|p| !strict.contains(p));
+                        let inherited = &self.twin.inherited_conflict_paths[n];
+                        if !missing && !extra.is_empty() && extra.iter().all(|p| inherited.contains(p)) {
+                            // narrow signature: the only deviation is that a conflict inherited
+                            // unchanged from a conflicted parent of a merge commit is recorded
+                            let sig = "C22/changed-paths/merge/unchanged-conflict-recorded-when-a-parent-tree-is-conflicted";
+                            if !self.out.soft.iter().any(|(s, _)| s == sig) {
+                                self.out.soft.push((
+                                    sig.to_string(),
+                                    format!(
+                                        "{view}: index records {paths:?} for merge node {n} ({spec}); only {want:?} \
+                                         differ from the merged parents; {extra:?} hold(s) the same unresolved \
+                                         conflict in the merged parents and in the commit (one parent's tree is itself \
+                                         conflicted)"
+                                    ),
+                                ));
+                            }
+                            continue;
+                        }
                         return Err((
                             format!("C22/changed-paths/{shape}/{vk}"),
                             format!(
@@ -546,8 +582,11 @@ impl<'a> Runner<'a> {
                 }
             }
         }
-        // files() with the index vs. without (twin) vs. reference
-        for k in 0..NUM_PATTERNS {
+        // files() with the index vs. without (twin) vs. reference: on every view produced by a
+        // build, an operation merge or a reload, and on transaction views once all nodes exist
+        let with_files = !(vk == "mutable" || vk == "readonly") || known.len() == self.nodes.len() + 1;
+        let num_patterns = if with_files { NUM_PATTERNS } else { 0 };
+        for k in 0..num_patterns {
             let got = eval_files(repo, k, &self.id_to_node)
                 .map_err(|e| (format!("C22/files-revset/error/{vk}"), format!("{view}: files(pattern {k}): {e}")))?;
             self.out.files_queries += 1;
@@ -573,6 +612,27 @@ impl<'a> Runner<'a> {
                          (indexed nodes {indexed:?}), {noindex:?} without it"
                     ),
                 ));
+            }
+            if by_ref.is_subset(&got)
+                && !got.is_subset(&by_ref_may)
+                && got
+                    .difference(&by_ref_may)
+                    .all(|&n| self.twin.inherited_conflict_paths[n].iter().any(|p| pattern_matches(k, p)))
+            {
+                let extra: Vec<usize> = got.difference(&by_ref_may).copied().collect();
+                let sig = "C22/files-revset/vs-reference/unchanged-conflict-matched-when-a-parent-tree-is-conflicted";
+                if !self.out.soft.iter().any(|(s, _)| s == sig) {
+                    self.out.soft.push((
+                        sig.to_string(),
+                        format!(
+                            "{view}: files(pattern {k}) = nodes {got:?}, tree comparison says {by_ref:?}; the extra \
+                             merge node(s) {extra:?} only carry, at a matching path, an unresolved conflict that is identical in the \
+                             merged parents and the commit (one parent's tree is itself conflicted) (indexed nodes {indexed:?}; same answer without \
+                             the index)"
+                        ),
+                    ));
+                }
+                continue;
             }
             if !(by_ref.is_subset(&got) && got.is_subset(&by_ref_may)) {
                 return Err((
@@ -745,7 +805,7 @@ impl<'a> Runner<'a> {
 }
 
 fn run_plan(env: &Env, nodes: &[Node], plan: &[Step], twin: &Twin) -> Result<Outcome, Fail> {
-    let test_repo = TestRepo::init();
+    let test_repo = TestRepo::init_with_backend(testutils::TestRepoBackend::Simple);
     let repo = test_repo.repo.clone();
     let mut ids: Vec<Option<CommitId>> = vec![None; nodes.len() + 1];
     ids[0] = Some(repo.store().root_commit_id().clone());
@@ -846,6 +906,49 @@ fn octopus_configs() -> Vec<Vec<Node>> {
         }
     }
     out
+}
+
+/// Merges one of whose parents has a conflicted tree: 1 and 2 are children of the root (2 may
+/// conflict with 1), 3 = merge(1, 2), 4 = a further commit, 5 = merge(3, 4).
+fn conflicted_parent_configs() -> Vec<Vec<Node>> {
+    let mut out = vec![];
+    for e2 in [1u8, 6, 4] {
+        for m3 in [Recipe::Edit(0), Recipe::Edit(3), Recipe::Take { parent: 0, path: 0 }] {
+            for p4 in [0usize, 1] {
+                for e4 in [6u8, 2, 5] {
+                    for m5 in [
+                        Recipe::Edit(0),
+                        Recipe::Edit(4),
+                        Recipe::Edit(1),
+                        Recipe::Take { parent: 0, path: 0 },
+                        Recipe::Take { parent: 1, path: 0 },
+                    ] {
+                        out.push(vec![
+                            Node { parents: vec![0], recipe: Recipe::Base },
+                            Node { parents: vec![0], recipe: Recipe::Edit(e2) },
+                            Node { parents: vec![1, 2], recipe: m3.clone() },
+                            Node { parents: vec![p4], recipe: Recipe::Edit(e4) },
+                            Node { parents: vec![3, 4], recipe: m5.clone() },
+                        ]);
+                    }
+                }
+            }
+        }
+    }
+    out
+}
+
+fn conflicted_parent_plans() -> Vec<Vec<Step>> {
+    vec![
+        vec![Step::Build(0), Step::Tx(vec![1, 2, 3]), Step::Tx(vec![4, 5])],
+        vec![Step::Tx(vec![1, 2, 3, 4, 5]), Step::Build(MAX)],
+        vec![
+            Step::Build(0),
+            Step::Tx(vec![1, 2]),
+            Step::Fork(vec![Step::Tx(vec![3])], vec![Step::Tx(vec![4])]),
+            Step::Tx(vec![5]),
+        ],
+    ]
 }
 
 fn octopus_plans() -> Vec<Vec<Step>> {
@@ -1038,7 +1141,11 @@ fn main() {
             .unwrap_or_else(|e| machinery_failure(&format!("bad replay case: {e}")));
         let twin = build_twin(&case.nodes);
         match catch(|| run_plan(&env, &case.nodes, &case.plan, &twin)) {
-            Ok(Ok(_)) => {}
+            Ok(Ok(out)) => {
+                for (sig, msg) in out.soft {
+                    ctx.violation(&sig, msg, serde_json::to_value(&case).unwrap());
+                }
+            }
             Ok(Err((sig, msg))) => ctx.violation(&sig, msg, serde_json::to_value(&case).unwrap()),
             Err(p) => ctx.violation("C22/panic/other", p, serde_json::to_value(&case).unwrap()),
         }
@@ -1064,26 +1171,40 @@ fn main() {
     let mut groups: Vec<Group> = vec![];
     let all_edits: Vec<u8> = (0..NUM_EDITS).collect();
     if ctx.quick() {
-        // content: all side-edit pairs x all merge modes, child edits {none, a:=top}, plan 0;
-        // the other two plans for the child edit "none"
+        // content: all side-edit pairs x all merge modes x child edits {none, a:=top} x 3 plans
         for nodes in part_a_configs(&[0, 1], &all_edits) {
-            let plans = if nodes[4].recipe == Recipe::Edit(0) { part_a_plans() } else { vec![part_a_plans()[0].clone()] };
-            groups.push(Group { nodes, plans });
-        }
-        for nodes in octopus_configs() {
-            groups.push(Group { nodes, plans: vec![octopus_plans()[0].clone()] });
-        }
-        groups.extend(part_b_groups(4, &|n| if n <= 3 { 2 } else { 1 }, 3));
-    } else {
-        for nodes in part_a_configs(&[0, 1, 3, 6], &all_edits) {
             groups.push(Group { nodes, plans: part_a_plans() });
         }
         for nodes in octopus_configs() {
             groups.push(Group { nodes, plans: octopus_plans() });
         }
+        for nodes in conflicted_parent_configs() {
+            groups.push(Group { nodes, plans: conflicted_parent_plans() });
+        }
+        groups.extend(part_b_groups(4, &|n| if n <= 3 { 2 } else { 1 }, 3));
+    } else {
+        for nodes in part_a_configs(&all_edits, &all_edits) {
+            groups.push(Group { nodes, plans: part_a_plans() });
+        }
+        for nodes in octopus_configs() {
+            groups.push(Group { nodes, plans: octopus_plans() });
+        }
+        for nodes in conflicted_parent_configs() {
+            groups.push(Group { nodes, plans: conflicted_parent_plans() });
+        }
         groups.extend(part_b_groups(5, &|n| if n <= 4 { 2 } else { 1 }, 4));
     }
 
+    if std::env::var("C22_COUNT").is_ok() {
+        let mut by_n: BTreeMap<usize, (usize, usize)> = BTreeMap::new();
+        for g in &groups {
+            let e = by_n.entry(g.nodes.len() * 10 + (g.nodes[0].recipe == Recipe::Base && g.nodes.len() == 5 && g.nodes[1].parents == vec![1] && g.nodes[2].parents == vec![1]) as usize).or_insert((0, 0));
+            e.0 += 1;
+            e.1 += g.plans.len();
+        }
+        eprintln!("groups by size: {by_n:?}");
+        std::process::exit(0);
+    }
     let evals = Counter::new();
     let nontrivial = Counter::new();
     let total: Mutex<Outcome> = Mutex::new(Outcome::default());
@@ -1112,6 +1233,9 @@ fn main() {
             let case_json = || json!({"nodes": g.nodes, "plan": plan});
             match catch(|| run_plan(&env, &g.nodes, plan, &twin)) {
                 Ok(Ok(out)) => {
+                    for (sig, msg) in &out.soft {
+                        ctx.violation(sig, msg.clone(), case_json());
+                    }
                     if out.some_checked > 0 && out.merge_commits_indexed > 0 {
                         nontrivial.inc();
                         if out.conflicted_parent_indexed > 0 {
